@@ -334,6 +334,7 @@ func c20(x *ctx) {
 	progs := progSet(x)
 	classDef := regexp.MustCompile(`(?m)^\s*class\s+([A-Z][A-Za-z0-9]*)`)
 	defRe := regexp.MustCompile(`(?m)^\s*def\s+(?:self\.)?([a-z_][A-Za-z0-9_?!]*)`)
+	callRe := regexp.MustCompile(`[a-z0-9_)\]]\.([a-z_][a-z0-9_]*)\b`)
 	nCollide := 0
 	x.metamorphic(func(emit func(*mItem)) {
 		for pi, p := range progs {
@@ -370,9 +371,31 @@ func c20(x *ctx) {
 					}
 				}
 				ims = append(ims, methods[0])
+				// ... and like the methods the program calls (some of them undefined for its own classes)
+				declared := map[string]bool{}
+				for _, m := range ims {
+					declared[m.Name] = true
+				}
+				for _, c := range callRe.FindAllStringSubmatch(p.Src, -1) {
+					if !declared[c[1]] && c[1] != "new" && len(ims) < 20 {
+						declared[c[1]] = true
+						ims = append(ims, gen.CfgMethod{Name: c[1], Arguments: []gen.CfgArg{}, ReturnType: ret("Symbol")})
+					}
+				}
 				// the colliding class lives in a foreign frame: a plain one, and one nested under Builtin
-				for fi, frame := range []string{"Xfr", "Builtin::Xfr"} {
+				frames := []string{"Xfr", "Builtin::Xfr"}
+				// a user class that exists only inside a module is not the Builtin class of the same short name
+				// (instance methods only: class-method calls are resolved from the caller's frame, known finding C27-F1)
+				nsOnly := regexp.MustCompile(`(?m)^\s+class\s+`+cn+`\b`).MatchString(p.Src) && !regexp.MustCompile(`(?m)^class\s+`+cn+`\b`).MatchString(p.Src) &&
+					regexp.MustCompile(`(?m)^module\s`).MatchString(p.Src) && !strings.Contains(p.Src, "< "+cn)
+				if nsOnly {
+					frames = append(frames, "Builtin")
+				}
+				for fi, frame := range frames {
 					cls := gen.CfgClass{Frame: frame, Class: cn, InstanceMethods: ims, ClassMethods: cmethods}
+					if frame == "Builtin" {
+						cls.ClassMethods = nil
+					}
 					name := fmt.Sprintf("collide-%d-%s-%d", pi, cn, fi)
 					files := gen.Merge(shipped, map[string]string{"zzz_extra.json": cls.JSON()})
 					cfgFiles[name] = files
